@@ -863,6 +863,9 @@ class Interp:
             if kind == 'array': return Agg('array', 0, [s.operand(ctx, frame, f, o, ln) for o in flds])
             if kind == 'variant':
                 name = strip_generics(ty); parts = name.split('::'); vname = parts[-1]; tname = parts[-2] if len(parts) > 1 else '?'
+                en = getattr(s.p, 'enums', {}).get(tname)
+                if en is not None and vname in en and tname not in ('Option', 'Result', 'Poll', 'Ordering'):
+                    return Agg(tname, en[vname], [s.operand(ctx, frame, f, o, ln) for o in flds])
                 if vname in VARIANTS and tname[:1].isupper():
                     return Agg(tname, VARIANTS[vname], [s.operand(ctx, frame, f, o, ln) for o in flds])
                 if not tname[:1].isupper():
